@@ -51,7 +51,7 @@ def generate(seed, tier):
     for _ in range(r.choice((0, 0, 1, 2))):
         sid += 1
         post.append({"op": "push", "sid": sid, "conv": True, "send": "ok", "delay": 0})
-    knobs = common.draw_knobs(r, line_level=r.random() < 0.7, stall_ns=[1_000_000, 1_500_000_000])
+    knobs = common.race_knobs(r, line_level=r.random() < 0.7, stall_ns=[1_000_000, 1_500_000_000])
     return {"threads": threads, "post": post, "knobs": knobs}
 
 
